@@ -572,6 +572,8 @@ def c11(ap, res, size_hint=1):
         return [{"what": "scheduling raised an internal error / did not terminate in time", "exception": res.get("exc"),
                  "message": res.get("msg"), "where": res.get("where")}]
     obs = res["obs"]
+    if obs.get("start") is None or obs.get("end") is None:
+        return [{"what": "the project was accepted but has no start / end: the scheduling horizon is undefined", "start": obs.get("start"), "end": obs.get("end")}]
     if res["wall"] > 20 + 0.5 * size_hint:
         bad.append({"what": "scheduling took longer than the bound proportional to project size", "wall_s": res["wall"]})
     warn = "could not be scheduled" in res.get("stderr", "") or "Deadlock" in res.get("stderr", "")
